@@ -1,6 +1,7 @@
 import NanoVerif.Proofs.Transformed
 import NanoVerif.Proofs.Decompose
 import NanoVerif.Proofs.TrFixed
+import NanoVerif.Proofs.TrPaint
 /-
 C16 — Specialised transform paints denote exactly the affine they replace.
 ONLY property theorems, their non-vacuity examples and counter-statements live here.
